@@ -400,8 +400,13 @@ constexpr MagRepresentationOrError<T> root(T x, std::uintmax_t n) {
 
         auto result = checked_int_pow(mid, n);
 
+        // If `mid^n` is too big to represent, then `mid` is too high (because `x` is representable).
         if (result.outcome != MagRepresentationOutcome::OK) {
-            return {result.outcome};
+            if (mid == lo || mid == hi) {
+                break;
+            }
+            hi = mid;
+            continue;
         }
 
         // Early return if we get lucky with an exact answer.
@@ -423,8 +428,12 @@ constexpr MagRepresentationOrError<T> root(T x, std::uintmax_t n) {
     }
 
     // Pick whichever one gets closer to the target.
+    const auto hi_result = checked_int_pow(hi, n);
+    if (hi_result.outcome != MagRepresentationOutcome::OK) {
+        return {MagRepresentationOutcome::OK, static_cast<T>(lo)};
+    }
     const auto lo_diff = x - checked_int_pow(lo, n).value;
-    const auto hi_diff = checked_int_pow(hi, n).value - x;
+    const auto hi_diff = hi_result.value - x;
     return {MagRepresentationOutcome::OK, static_cast<T>(lo_diff < hi_diff ? lo : hi)};
 }
 
